@@ -30,6 +30,8 @@ extern int      vh_light;     /* secondary build configuration of the thorough t
 typedef struct { uint64_t s[4]; } vh_rng;
 void     vh_rng_seed(vh_rng *r, uint64_t a, uint64_t b);
 uint64_t vh_rand(vh_rng *r);
+void     vh_rng_stream(vh_rng *r, const unsigned char *p, size_t n); /* draws come from these octets (8 per draw, then 0) */
+size_t   vh_rng_stream_left(void);
 static inline uint64_t vh_below(vh_rng *r, uint64_t n) { return n ? vh_rand(r) % n : 0; }
 static inline int vh_chance(vh_rng *r, unsigned num, unsigned den) { return vh_below(r, den) < num; }
 uint64_t vh_mix(uint64_t x);            /* splitmix finaliser, for hashing */
